@@ -9,7 +9,7 @@ git -C /repo worktree add -q --detach $wt HEAD || exit 1
 for d in seeded/${filter}*/; do
   id=$(basename $d); prop=${id%%-*}
   checks=$(python3 -c "import json;m=json.load(open('$d/meta.json'));print(' '.join(m['caught_by']) or '$prop')")
-  git -C $wt checkout -q -- . ; git -C $wt apply $PWD/$d/patch.diff 2>/dev/null || { echo "$id: patch does not apply to HEAD"; continue; }
+  git -C $wt checkout -q -- . ; git -C $wt clean -fdq playback ; git -C $wt apply $PWD/$d/patch.diff 2>/dev/null || { echo "$id: patch does not apply to HEAD"; continue; }
   line="$id:"
   for c in $checks; do
     v=$(VERIF_REPO=$wt timeout 3000 /venv/bin/python check $c --tier $tier 2>&1 | grep -E "^(HELD|VIOLATED|INCONCLUSIVE)" | cut -d' ' -f1)
